@@ -1,14 +1,38 @@
-// temporary experiment
+// hC10 — correspondence driver for property C10 (bulk ingestion stores valid documents
+// verbatim, timed by rule, or stores nothing).
+//
+// Drives the REAL proxyapi.BulkHandler.ServeHTTP (httptest) on top of the REAL bulk.Ingestor with
+// a recording StorageClient, and writes every observation as a Coq case (props/C10/coq/CaseDefs.v).
+// The only substitution: the DocumentsProcessor handed to the handler replaces the handler's
+// time.Now() by a request time chosen by the generator (and checks that the handler's own value
+// is inside the wall-clock bracket of the call), so that drift boundaries are exact and runs are
+// reproducible.
+//
+// esBulkDocReader keeps its bufio.Reader (and thus the buffer size of the first handler) in a
+// process-wide sync.Pool, so every buffer size runs in its own child process (`-worker`).
 package main
 
 import (
+	"bufio"
 	"bytes"
+	"compress/gzip"
 	"context"
 	"encoding/binary"
+	"encoding/hex"
+	"encoding/json"
+	"flag"
 	"fmt"
+	"io"
+	"math/big"
 	"net/http"
 	"net/http/httptest"
+	"os"
+	"os/exec"
+	"strings"
+	"sync"
 	"time"
+
+	insaneJSON "github.com/ozontech/insane-json"
 
 	"github.com/ozontech/seq-db/disk"
 	"github.com/ozontech/seq-db/frac"
@@ -16,36 +40,69 @@ import (
 	"github.com/ozontech/seq-db/proxy/bulk"
 	"github.com/ozontech/seq-db/proxyapi"
 	"github.com/ozontech/seq-db/seq"
+
+	"verif/harness/internal/casefile"
+	"verif/harness/internal/rng"
 )
 
-type rec struct {
-	calls int
-	total int
-	docs  [][]byte
-	metas []frac.MetaData
+// ---------------------------------------------------------------- recording store
+
+type stored struct {
+	doc  []byte
+	mid  uint64
+	size uint32
 }
 
-func (c *rec) StoreDocuments(_ context.Context, total int, docs, metas []byte) error {
+type recorder struct {
+	calls   int
+	total   int
+	payload []byte
+	docs    [][]byte
+	metas   []frac.MetaData
+	err     string
+}
+
+func (c *recorder) StoreDocuments(_ context.Context, total int, docs, metas []byte) error {
 	c.calls++
 	c.total = total
 	d, err := disk.DocBlock(docs).DecompressTo(nil)
 	if err != nil {
-		panic(err)
+		c.err = "docs block: " + err.Error()
+		return nil
 	}
+	c.payload = append([]byte{}, d...)
 	for len(d) > 0 {
-		n := binary.LittleEndian.Uint32(d)
+		if len(d) < 4 {
+			c.err = "docs payload: short length prefix"
+			return nil
+		}
+		n := int(binary.LittleEndian.Uint32(d))
+		if len(d) < 4+n {
+			c.err = "docs payload: short document"
+			return nil
+		}
 		c.docs = append(c.docs, append([]byte{}, d[4:4+n]...))
 		d = d[4+n:]
 	}
 	m, err := disk.DocBlock(metas).DecompressTo(nil)
 	if err != nil {
-		panic(err)
+		c.err = "metas block: " + err.Error()
+		return nil
 	}
 	for len(m) > 0 {
-		n := binary.LittleEndian.Uint32(m)
+		if len(m) < 4 {
+			c.err = "metas payload: short length prefix"
+			return nil
+		}
+		n := int(binary.LittleEndian.Uint32(m))
+		if len(m) < 4+n {
+			c.err = "metas payload: short meta"
+			return nil
+		}
 		var md frac.MetaData
 		if err := md.UnmarshalBinary(append([]byte{}, m[4:4+n]...)); err != nil {
-			panic(err)
+			c.err = "meta: " + err.Error()
+			return nil
 		}
 		c.metas = append(c.metas, md)
 		m = m[4+n:]
@@ -53,64 +110,1030 @@ func (c *rec) StoreDocuments(_ context.Context, total int, docs, metas []byte) e
 	return nil
 }
 
-type fixed struct {
-	ing *bulk.Ingestor
-	t   time.Time
+// the handler's DocumentsProcessor: the real ingestor, with the generator's request time
+type fixedTime struct {
+	ing  *bulk.Ingestor
+	t    time.Time
+	seen time.Time
 }
 
-func (f *fixed) ProcessDocuments(ctx context.Context, _ time.Time, rn func() ([]byte, error)) (int, error) {
+func (f *fixedTime) ProcessDocuments(ctx context.Context, rt time.Time, rn func() ([]byte, error)) (int, error) {
+	f.seen = rt
 	return f.ing.ProcessDocuments(ctx, f.t, rn)
 }
 
-func main() {
-	mp, _ := mappingprovider.New("", mappingprovider.WithMapping(seq.Mapping{
-		"k": seq.NewSingleType(seq.TokenizerTypeKeyword, "", 0),
-		"t": seq.NewSingleType(seq.TokenizerTypeText, "", 0),
-	}))
-	now := time.Date(2026, 9, 25, 12, 0, 0, 0, time.UTC)
-	run := func(B int, body string) {
-		c := &rec{}
-		ing := bulk.NewIngestor(bulk.IngestorConfig{MaxInflightBulks: 1, AllowedTimeDrift: time.Hour, FutureAllowedTimeDrift: time.Minute, MappingProvider: mp, MaxTokenSize: 72}, c)
-		defer ing.Stop()
-		h := proxyapi.NewBulkHandler(&fixed{ing, now}, B)
-		req := httptest.NewRequest(http.MethodPost, "/_bulk", bytes.NewReader([]byte(body)))
-		w := httptest.NewRecorder()
-		h.ServeHTTP(w, req)
-		fmt.Printf("body=%q\n  status=%d resp=%q calls=%d total=%d\n", body, w.Code, w.Body.String(), c.calls, c.total)
-		for _, d := range c.docs {
-			fmt.Printf("  doc=%q\n", d)
+// reader delivering the body in small pieces (exercises bufio's fill loop)
+type chunkReader struct {
+	b []byte
+	n int
+}
+
+func (c *chunkReader) Read(p []byte) (int, error) {
+	if len(c.b) == 0 {
+		return 0, io.EOF
+	}
+	k := min(c.n, len(p), len(c.b))
+	copy(p, c.b[:k])
+	c.b = c.b[k:]
+	return k, nil
+}
+
+// ---------------------------------------------------------------- configuration of a worker
+
+type driftCfg struct{ drift, fdrift time.Duration }
+
+var driftCfgs = []driftCfg{
+	{time.Hour, time.Minute},
+	{0, 0},
+	{10 * time.Second, 24 * time.Hour},
+	{200 * 365 * 24 * time.Hour, 200 * 365 * 24 * time.Hour},
+}
+
+var baseNow = time.Date(2026, 9, 25, 12, 0, 0, 0, time.UTC)
+
+var mapping = seq.Mapping{
+	"k": seq.NewSingleType(seq.TokenizerTypeKeyword, "", 0),
+	"t": seq.NewSingleType(seq.TokenizerTypeText, "", 0),
+	"p": seq.NewSingleType(seq.TokenizerTypePath, "", 0),
+	"o": seq.NewSingleType(seq.TokenizerTypeObject, "", 0),
+	"o.k": seq.NewSingleType(seq.TokenizerTypeKeyword, "", 0),
+	"n": seq.NewSingleType(seq.TokenizerTypeNested, "", 0),
+	"n.k": seq.NewSingleType(seq.TokenizerTypeKeyword, "", 0),
+}
+
+type env struct {
+	maxDoc int
+	B      int
+	ings   []*bulk.Ingestor
+	recs   []*recorder // current recorder per ingestor (swapped per request)
+}
+
+type swapClient struct{ cur *recorder }
+
+func (s *swapClient) StoreDocuments(ctx context.Context, total int, docs, metas []byte) error {
+	return s.cur.StoreDocuments(ctx, total, docs, metas)
+}
+
+// ---------------------------------------------------------------- request description
+
+type fieldSpec struct {
+	Name  string `json:"name"`
+	Value string `json:"value"` // raw value as it appears between the quotes ("" = absent)
+}
+
+type docMeta struct {
+	DocHex   string      `json:"doc_hex"`
+	Fields   []fieldSpec `json:"fields,omitempty"`   // time fields in the document
+	Intended *string     `json:"intended,omitempty"` // instant (ns since epoch, decimal) the generator rendered
+}
+
+type request struct {
+	MaxDoc   int       `json:"max_document_size"`
+	Cfg      int       `json:"drift_cfg"`
+	NowNs    int64     `json:"now_ns"`
+	Gzip     bool      `json:"gzip"`
+	Chunk    int       `json:"chunk"`
+	BodyHex  string    `json:"body_hex"`
+	BodyText string    `json:"body_text"`
+	Docs     []docMeta `json:"docs,omitempty"`
+	Class    string    `json:"class"`
+	body     []byte
+}
+
+type observation struct {
+	Status  int      `json:"status"`
+	Resp    string   `json:"response"`
+	Created int      `json:"created"`
+	Calls   int      `json:"calls"`
+	Total   int      `json:"total"`
+	Docs    []string `json:"docs"`
+	Mids    []uint64 `json:"mids"`
+	Sizes   []uint32 `json:"sizes"`
+	payload []byte
+	stored  []stored
+}
+
+type record struct {
+	Kind       string       `json:"kind"` // case | viol | count
+	Coq        string       `json:"coq,omitempty"`
+	Class      string       `json:"class,omitempty"`
+	Nontrivial bool         `json:"nontrivial,omitempty"`
+	Req        *request     `json:"req,omitempty"`
+	Obs        *observation `json:"obs,omitempty"`
+	Fp         string       `json:"fp,omitempty"`
+	What       string       `json:"what,omitempty"`
+	Key        string       `json:"key,omitempty"`
+}
+
+// ---------------------------------------------------------------- running one request on the real code
+
+func newEnv(maxDoc int) *env {
+	e := &env{maxDoc: maxDoc, B: max(maxDoc, 16)}
+	mp, err := mappingprovider.New("", mappingprovider.WithMapping(mapping))
+	if err != nil {
+		panic(err)
+	}
+	for _, c := range driftCfgs {
+		sc := &swapClient{}
+		ing := bulk.NewIngestor(bulk.IngestorConfig{MaxInflightBulks: 1, AllowedTimeDrift: c.drift,
+			FutureAllowedTimeDrift: c.fdrift, MappingProvider: mp, MaxTokenSize: 72, MaxDocumentSize: maxDoc}, sc)
+		e.ings = append(e.ings, ing)
+		_ = sc
+		clients = append(clients, sc)
+	}
+	return e
+}
+
+var clients []*swapClient
+
+func (e *env) serve(rq *request, emit func(record)) *observation {
+	rec := &recorder{}
+	clients[rq.Cfg].cur = rec
+	ft := &fixedTime{ing: e.ings[rq.Cfg], t: time.Unix(0, rq.NowNs).UTC()}
+	h := proxyapi.NewBulkHandler(ft, e.maxDoc)
+	var rd io.Reader
+	raw := rq.body
+	hdr := ""
+	if rq.Gzip {
+		var zb bytes.Buffer
+		zw := gzip.NewWriter(&zb)
+		zw.Write(raw)
+		zw.Close()
+		raw = zb.Bytes()
+		hdr = "gzip"
+	}
+	if rq.Chunk > 0 {
+		rd = &chunkReader{b: raw, n: rq.Chunk}
+	} else {
+		rd = bytes.NewReader(raw)
+	}
+	hr := httptest.NewRequest(http.MethodPost, "/_bulk", rd)
+	if hdr != "" {
+		hr.Header.Set("Content-Encoding", hdr)
+	}
+	w := httptest.NewRecorder()
+	var panicked any
+	t0 := time.Now()
+	func() {
+		defer func() { panicked = recover() }()
+		h.ServeHTTP(w, hr)
+	}()
+	t1 := time.Now()
+	in := map[string]any{"request": rq}
+	if panicked != nil {
+		emit(record{Kind: "viol", Fp: "panic:ServeHTTP", What: fmt.Sprintf("BulkHandler.ServeHTTP panics: %v", panicked), Req: rq})
+		return nil
+	}
+	_ = in
+	if !ft.seen.IsZero() && (ft.seen.Before(t0) || ft.seen.After(t1)) {
+		emit(record{Kind: "viol", Fp: "request-time-not-now", What: "the handler's request time is outside the wall-clock bracket of the call", Req: rq})
+	}
+	o := &observation{Status: w.Code, Resp: w.Body.String(), Calls: rec.calls, Total: rec.total, payload: rec.payload}
+	if len(o.Resp) > 300 {
+		o.Resp = o.Resp[:300] + "..."
+	}
+	if rec.err != "" {
+		emit(record{Kind: "viol", Fp: "payload-undecodable", What: "payload handed to StoreDocuments does not decode: " + rec.err, Req: rq})
+		return nil
+	}
+	if w.Code/100 == 2 {
+		var resp struct {
+			Errors *bool `json:"errors"`
+			Items  []struct {
+				Create struct {
+					Status int `json:"status"`
+				} `json:"create"`
+			} `json:"items"`
 		}
-		for _, m := range c.metas {
-			fmt.Printf("  meta mid=%d (%s) size=%d ntok=%d\n", m.ID.MID, m.ID.MID.Time().UTC().Format(time.RFC3339Nano), m.Size, len(m.Tokens))
+		if err := json.Unmarshal(w.Body.Bytes(), &resp); err != nil || resp.Errors == nil || *resp.Errors {
+			emit(record{Kind: "viol", Fp: "response-malformed", What: "2xx response is not the expected bulk response JSON", Req: rq, Obs: o})
+			return nil
+		}
+		for _, it := range resp.Items {
+			if it.Create.Status != 201 {
+				emit(record{Kind: "viol", Fp: "response-malformed", What: "item without status 201", Req: rq, Obs: o})
+				return nil
+			}
+		}
+		o.Created = len(resp.Items)
+	}
+	// pair every document with its own meta (Size > 0); nested metas (Size 0) carry the parent's ID
+	var mains []frac.MetaData
+	for i, m := range rec.metas {
+		if m.Size != 0 {
+			mains = append(mains, m)
+			continue
+		}
+		if len(mains) == 0 || rec.metas[i].ID != mains[len(mains)-1].ID {
+			emit(record{Kind: "viol", Fp: "meta-nested-id", What: "nested meta without parent or with another ID", Req: rq, Obs: o})
+			return nil
 		}
 	}
-	a := "{\"index\":{}}\n"
-	pad := func(n int) string { s := "{\"a\":\""; for len(s) < n-2 { s += "x" }; return s + "\"}" }
-	for _, b := range []string{
-		a + "{\"a\":1}\n" + a + pad(32),
-		a + "{\"a\":1}\n" + a + pad(31),
-		a + "{\"a\":1}\n" + a + pad(33),
-		a + "{\"a\":1}\n" + a + pad(64),
-		a + "{\"a\":1}\n" + a + pad(31)+"\n",
-		a + "{\"a\":1}\n" + a + pad(32)+"\n"+a+"{\"b\":2}\n",
-		a + "{\"a\":1}\n" + a + pad(30)+"\r\n"+a+"{\"b\":2}\n",
-		a + "{\"a\":1}\n" + a + pad(31)+"\r\n"+a+"{\"b\":2}\n",
-		a + "{\"a\":1}\n" + a + pad(31)+"\r",
-		a + "{\"a\":1}\n" + a + pad(30)+"\r",
-		a + "{\"a\":1}\n" + a,
-		a + "{\"a\":1}\n" + "{\"index\":{}}",
-		a + "{\"a\":1}\n\n\n" + a+"\n",
-		a + "{\"a\":1}\n\r\n" + a+"{\"b\":2}\r\n\r\n",
-		"\n\n"+a + "{\"a\":1}\n",
-		"{\"delete\":{}}\n{\"a\":1}\n",
-		a+"{}\n"+a+"{}\n"+a+"{}\n"+a+"{}\n"+a+"{}\n"+"junk\n{\"a\":1}\n",
-		a+"{}\n"+a+"{}\n"+a+"{}\n"+a+"{}\n"+"junk\n{\"a\":1}\n",
-		"{\"index\":{\"_index\":\"aaaaaaaaaaaaaaaaaaaaaaaaaaaaaaaaaaaa\"}}\n{\"a\":1}\n",
-		a + "{\"a\":1}\n" + a + "[1]\n" + a + "{\"b\":2}\n"+a+"x\n",
-		"",
-		"\n",
-		a + "{\"a\":1}\n" + a + pad(32)+"\n"+a+pad(100)+"\n"+a+"{\"b\":2}",
-	} {
-		run(32, b)
+	if len(mains) != len(rec.docs) {
+		emit(record{Kind: "viol", Fp: "meta-count", What: fmt.Sprintf("%d documents but %d document metas in the payload", len(rec.docs), len(mains)), Req: rq, Obs: o})
+		return nil
+	}
+	for i, d := range rec.docs {
+		o.stored = append(o.stored, stored{d, uint64(mains[i].ID.MID), mains[i].Size})
+		o.Docs = append(o.Docs, string(d))
+		o.Mids = append(o.Mids, uint64(mains[i].ID.MID))
+		o.Sizes = append(o.Sizes, mains[i].Size)
+	}
+	return o
+}
+
+// ---------------------------------------------------------------- oracle table
+
+var oracleDec = insaneJSON.Spawn()
+
+// class of a line as a JSON document. strict = encoding/json; where strict says "invalid" the
+// decoder library itself is the oracle (the JSON grammar is outside the model).
+func classify(line []byte) (cls string, lenient bool, mismatch string) {
+	strictValid := json.Valid(line)
+	err := oracleDec.DecodeBytes(line)
+	insCls := "Invalid"
+	if err == nil {
+		if oracleDec.IsObject() {
+			insCls = "Object"
+		} else {
+			insCls = "NonObject"
+		}
+	}
+	if strictValid {
+		c := "NonObject"
+		if t := bytes.TrimLeft(line, " \t\r\n"); len(t) > 0 && t[0] == '{' {
+			c = "Object"
+		}
+		if c != insCls {
+			mismatch = fmt.Sprintf("valid JSON (%s by encoding/json) is %s for the decoder", c, insCls)
+		}
+		return c, false, mismatch
+	}
+	return insCls, insCls != "Invalid", ""
+}
+
+func nsOf(t time.Time) *big.Int {
+	x := big.NewInt(t.Unix())
+	x.Mul(x, big.NewInt(1000000000))
+	return x.Add(x, big.NewInt(int64(t.Nanosecond())))
+}
+
+func rfcOracle(v string) *big.Int {
+	if t, err := time.Parse(time.RFC3339Nano, v); err == nil {
+		return nsOf(t)
+	}
+	if t, err := time.Parse(time.RFC3339, v); err == nil {
+		return nsOf(t)
+	}
+	return nil
+}
+
+func coqZ(x *big.Int) string { return "(" + x.String() + ")%Z" }
+
+func coqOptZ(x *big.Int) string {
+	if x == nil {
+		return "None"
+	}
+	return "(Some " + coqZ(x) + ")"
+}
+
+// time-field values of a line, extracted independently of the code under test
+func timeFields(line []byte, known map[string]docMeta) [3]string {
+	var out [3]string
+	if m, ok := known[string(line)]; ok {
+		for _, f := range m.Fields {
+			for i, n := range []string{"timestamp", "time", "ts"} {
+				if f.Name == n {
+					out[i] = f.Value
+				}
+			}
+		}
+		return out
+	}
+	var obj map[string]json.RawMessage
+	if json.Unmarshal(line, &obj) == nil {
+		for i, n := range []string{"timestamp", "time", "ts"} {
+			if raw, ok := obj[n]; ok {
+				var s string
+				if json.Unmarshal(raw, &s) == nil {
+					out[i] = s
+				}
+			}
+		}
+	}
+	return out
+}
+
+func buildTable(rq *request, emit func(record)) (string, bool, bool) {
+	known := map[string]docMeta{}
+	for _, d := range rq.Docs {
+		b, _ := hex.DecodeString(d.DocHex)
+		known[string(b)] = d
+	}
+	seen := map[string]bool{}
+	var entries []string
+	anyLenient := false
+	ok := true
+	add := func(line []byte) {
+		if seen[string(line)] {
+			return
+		}
+		seen[string(line)] = true
+		cls, lenient, mismatch := classify(line)
+		if mismatch != "" {
+			emit(record{Kind: "viol", Fp: "json-oracle-mismatch", What: mismatch + fmt.Sprintf(": %q", line), Req: rq})
+			ok = false
+		}
+		anyLenient = anyLenient || lenient
+		tf := timeFields(line, known)
+		var fs []string
+		for _, v := range tf {
+			fs = append(fs, "("+casefile.Bytes([]byte(v))+", "+coqOptZ(rfcOracle(v))+")")
+		}
+		intended := "None"
+		if m, okk := known[string(line)]; okk && m.Intended != nil {
+			x, _ := new(big.Int).SetString(*m.Intended, 10)
+			intended = coqOptZ(x)
+		}
+		entries = append(entries, fmt.Sprintf("(%s, Build_docinfo %s [%s] %s)", casefile.Bytes(line), cls, strings.Join(fs, "; "), intended))
+	}
+	for _, raw := range bytes.Split(rq.body, []byte{'\n'}) {
+		add(raw)
+		if len(raw) > 0 && raw[len(raw)-1] == '\r' {
+			add(raw[:len(raw)-1])
+		}
+	}
+	return "[" + strings.Join(entries, "; ") + "]", anyLenient, ok
+}
+
+func caseTerm(e *env, rq *request, o *observation, table string) string {
+	c := driftCfgs[rq.Cfg]
+	var st []string
+	for _, s := range o.stored {
+		st = append(st, fmt.Sprintf("(%s, ((%d)%%Z, %d))", casefile.Bytes(s.doc), s.mid, s.size))
+	}
+	return fmt.Sprintf("CBulk %d (%d)%%Z (%d)%%Z (%d)%%Z %s %s (Build_impl %s %d %d %d [%s] %s)",
+		e.B, rq.NowNs, int64(c.drift), int64(c.fdrift), casefile.Bytes(rq.body), table,
+		casefile.Bool(o.Status/100 == 2), o.Created, o.Calls, o.Total, strings.Join(st, "; "), casefile.Bytes(o.payload))
+}
+
+// ---------------------------------------------------------------- generators
+
+var strAtoms = []string{"a", "B", "Hello", "WORLD", " ", "x y", "é", "Ж", "İ", "K", "😀", "\\\"", "\\\\", "\\n", "\\u00e9", "\\ud83d\\ude00",
+	"/a/B/c", "0", "-", "_", "*", "A1", "ÀÉ", "\\t", ":", "{", "}", "[", ",", "ß", "ǅ"}
+var strAtomsLenient = []string{"\x01", "\t", "\xff", "\xc3", "\\q", "\\u12", "\r"}
+
+func genString(r *rng.R, lenient bool) string {
+	var sb strings.Builder
+	for n := r.Intn(4); n > 0; n-- {
+		if lenient && r.Chance(1, 3) {
+			sb.WriteString(rng.Pick(r, strAtomsLenient))
+		} else {
+			sb.WriteString(rng.Pick(r, strAtoms))
+		}
+	}
+	return sb.String()
+}
+
+var numAtoms = []string{"0", "1", "-1", "42", "3.14", "1e5", "-2.5E-3", "12345678901234567890", "0.0"}
+var numAtomsLenient = []string{"01", "1e", "-", ".5", "1.", "+1"}
+
+func genValue(r *rng.R, depth int, lenient bool) string {
+	switch c := r.Intn(10); {
+	case c < 3:
+		return "\"" + genString(r, lenient) + "\""
+	case c < 5:
+		if lenient && r.Chance(1, 3) {
+			return rng.Pick(r, numAtomsLenient)
+		}
+		return rng.Pick(r, numAtoms)
+	case c == 5:
+		return rng.Pick(r, []string{"null", "true", "false"})
+	case c < 8 && depth > 0:
+		n := r.Intn(3)
+		parts := make([]string, n)
+		for i := range parts {
+			parts[i] = genValue(r, depth-1, lenient)
+		}
+		return "[" + strings.Join(parts, ",") + "]"
+	case depth > 0:
+		return genObjectBody(r, depth-1, lenient, nil)
+	}
+	return "\"" + genString(r, lenient) + "\""
+}
+
+var keyAtoms = []string{"a", "b", "k", "t", "p", "o", "n", "msg", "K", "level", "é", ""}
+
+// a JSON object; extra = fields to put first (already rendered `"name":value`)
+func genObjectBody(r *rng.R, depth int, lenient bool, extra []string) string {
+	parts := append([]string{}, extra...)
+	for n := r.Intn(4); n > 0; n-- {
+		k := rng.Pick(r, keyAtoms)
+		var v string
+		switch {
+		case k == "o" && r.Bool():
+			v = "{\"k\":\"" + genString(r, lenient) + "\"}"
+		case k == "n" && r.Bool():
+			v = "[{\"k\":\"" + genString(r, lenient) + "\"},{\"k\":\"Z\"}]"
+		default:
+			v = genValue(r, depth, lenient)
+		}
+		parts = append(parts, "\""+k+"\":"+v)
+	}
+	if len(extra) > 0 {
+		rng.Shuffle(r, parts)
+	}
+	sp := ""
+	if r.Chance(1, 8) {
+		sp = " "
+	}
+	return "{" + sp + strings.Join(parts, ","+sp) + sp + "}"
+}
+
+// object of exactly n bytes (n >= 2); falls back to the nearest possible
+func objectOfLen(r *rng.R, n int) string {
+	if n < 8 {
+		switch {
+		case n <= 2:
+			return "{}"
+		case n == 7:
+			return `{"a":1}`
+		default:
+			return "{" + strings.Repeat(" ", n-2) + "}"
+		}
+	}
+	// {"k":"XXXX"} : 8 bytes + payload
+	key := rng.Pick(r, []string{"k", "t", "a"})
+	fill := make([]byte, n-8)
+	for i := range fill {
+		fill[i] = "abcXYZ 019_Q"[r.Intn(12)]
+	}
+	return "{\"" + key + "\":\"" + string(fill) + "\"}"
+}
+
+func breakJSON(r *rng.R, s string) string {
+	if len(s) == 0 {
+		return "x"
+	}
+	b := []byte(s)
+	switch r.Intn(5) {
+	case 0:
+		return string(b[:r.Intn(len(b))+0]) // truncate
+	case 1:
+		p := r.Intn(len(b))
+		return string(append(b[:p:p], b[p+1:]...))
+	case 2:
+		p := r.Intn(len(b) + 1)
+		g := rng.Pick(r, []string{",", "}", "{", "\"", ":", "x", "]", "garbage"})
+		return string(b[:p]) + g + string(b[p:])
+	case 3:
+		return s + rng.Pick(r, []string{"}", "x", "{}", ",", " 1"})
+	}
+	return rng.Pick(r, []string{"x", "nul", "{", "}", "{\"a\"}", "{\"a\":}", "{'a':1}", "[1,]", "{\"a\":1,}", "   ", "\t", "tru", "{\"a\":tru}", "\xef\xbb\xbf{}"})
+}
+
+type gen struct {
+	r    *rng.R
+	e    *env
+	cfg  int
+	now  time.Time
+	docs []docMeta
+	feat map[string]bool
+}
+
+func pad(n, w int) string { return fmt.Sprintf("%0*d", w, n) }
+
+// renders instant t in one of the supported formats; returns the value and the instant it denotes
+func (g *gen) renderTime(t time.Time) (string, time.Time, string) {
+	r := g.r
+	t = t.UTC()
+	switch r.Intn(4) {
+	case 0, 1: // ES
+		nd := r.Intn(10)
+		unit := int64(1)
+		for i := 0; i < 9-nd; i++ {
+			unit *= 10
+		}
+		ns := int64(t.Nanosecond()) / unit * unit
+		t = time.Date(t.Year(), t.Month(), t.Day(), t.Hour(), t.Minute(), t.Second(), int(ns), time.UTC)
+		s := t.Format("2006-01-02 15:04:05")
+		if nd > 0 {
+			s += "." + pad(int(ns/unit), nd)
+		}
+		return s, t, "es"
+	case 2: // RFC3339 (seconds), random zone
+		t = t.Truncate(time.Second)
+		return t.In(g.zone()).Format(time.RFC3339), t, "rfc3339"
+	}
+	nd := r.Range(1, 9)
+	unit := int64(1)
+	for i := 0; i < 9-nd; i++ {
+		unit *= 10
+	}
+	ns := int64(t.Nanosecond()) / unit * unit
+	t = time.Date(t.Year(), t.Month(), t.Day(), t.Hour(), t.Minute(), t.Second(), int(ns), time.UTC)
+	s := t.In(g.zone()).Format("2006-01-02T15:04:05") + "." + pad(int(ns/unit), nd)
+	z := t.In(g.zone()).Format("Z07:00")
+	return s + z, t, "rfc3339nano"
+}
+
+func (g *gen) zone() *time.Location {
+	switch g.r.Intn(4) {
+	case 0:
+		return time.FixedZone("", 3*3600)
+	case 1:
+		return time.FixedZone("", -(5*3600 + 30*60))
+	}
+	return time.UTC
+}
+
+var garbageTimes = []string{"junk", "2026-13-45 00:00:00", "2026-09-25", "2026-09-25T12:00:00", "1790337600", "2026-09-25 12:00:60",
+	"2026-09-25 12:00:00.", "2026-09-25 12:00:00,5", "2026/09/25 12:00:00", "2026-09-25 24:00:00", "2026-00-10 00:00:00", "2026-09-25 12:00:0x",
+	"2026-09-25  12:00:00", "26-09-25 12:00:00", "2026-09-25 12:00:00.12a", "2026-09-25T12:00:00+3", "2026-09-25 12:00:00Z"}
+
+// delay (= now - t) values around the configured boundaries
+func (g *gen) pickDelay() time.Duration {
+	r := g.r
+	c := driftCfgs[g.cfg]
+	eps := rng.Pick(r, []time.Duration{0, 1, -1, time.Millisecond, -time.Millisecond, time.Microsecond, -time.Microsecond, time.Second, -time.Second})
+	switch r.Intn(8) {
+	case 0, 1:
+		return c.drift + eps
+	case 2, 3:
+		return -c.fdrift + eps
+	case 4:
+		return eps
+	case 5:
+		return time.Duration(r.Intn(7200_000)-3600_000) * time.Millisecond
+	case 6: // far, but inside the range of time.Duration from now and of UnixNano
+		y := time.Duration(r.Range(-190, 190))
+		return y*365*24*time.Hour + time.Duration(r.Intn(1e9))
+	}
+	return time.Duration(int64(r.U64()%uint64(2*time.Hour))) - time.Hour
+}
+
+// a document with time fields; returns doc bytes
+func (g *gen) timeDoc(minimal bool) string {
+	r := g.r
+	var extra []string
+	var fields []fieldSpec
+	var intended *string
+	names := []string{"timestamp", "time", "ts"}
+	for _, n := range names {
+		p := 3
+		if minimal {
+			p = 5
+		}
+		switch c := r.Intn(p + 3); {
+		case c < 2: // valid
+			t := g.now.Add(-g.pickDelay())
+			if t.Year() < 0 || t.Year() > 9999 {
+				continue
+			}
+			s, tt, kind := g.renderTime(t)
+			extra = append(extra, "\""+n+"\":\""+s+"\"")
+			fields = append(fields, fieldSpec{n, s})
+			if intended == nil {
+				x := nsOf(tt).String()
+				intended = &x
+			}
+			g.feat["time-"+kind] = true
+		case c == 2: // garbage
+			s := rng.Pick(r, garbageTimes)
+			if r.Chance(1, 4) {
+				extra = append(extra, "\""+n+"\":\"\"")
+				fields = append(fields, fieldSpec{n, ""})
+			} else {
+				extra = append(extra, "\""+n+"\":\""+s+"\"")
+				fields = append(fields, fieldSpec{n, s})
+			}
+			g.feat["time-garbage"] = true
+		}
+	}
+	var doc string
+	if minimal {
+		doc = "{" + strings.Join(extra, ",") + "}"
+	} else {
+		doc = genObjectBody(r, 1, false, extra)
+	}
+	g.docs = append(g.docs, docMeta{DocHex: hex.EncodeToString([]byte(doc)), Fields: fields, Intended: intended})
+	return doc
+}
+
+// special documents for the three classes reported as findings
+func (g *gen) specialTimeDoc(kind string) string {
+	r := g.r
+	var s string
+	var tt time.Time
+	switch kind {
+	case "time-far-future":
+		// more than the range of time.Duration after now
+		y := r.Range(2330, 9999)
+		tt = time.Date(y, time.Month(r.Range(1, 12)), r.Range(1, 28), r.Intn(24), r.Intn(60), r.Intn(60), 0, time.UTC)
+		if r.Bool() {
+			s = tt.Format("2006-01-02 15:04:05")
+		} else {
+			s = tt.Format(time.RFC3339)
+		}
+	case "estime-long-fraction":
+		// 10..12 fraction digits with leading zeros; time.Parse would cut after 9 digits
+		nd := r.Range(10, 12)
+		digits := strings.Repeat("0", nd-9) + pad(r.Range(1, 999999999), 9)
+		tt = g.now.Add(-time.Duration(r.Intn(1000)) * time.Millisecond).Truncate(time.Second)
+		ns, _ := new(big.Int).SetString(digits[:9], 10)
+		tt = tt.Add(time.Duration(ns.Int64()))
+		s = tt.UTC().Format("2006-01-02 15:04:05") + "." + digits
+	}
+	n := rng.Pick(r, []string{"timestamp", "time", "ts"})
+	doc := "{\"" + n + "\":\"" + s + "\"}"
+	x := nsOf(tt).String()
+	g.docs = append(g.docs, docMeta{DocHex: hex.EncodeToString([]byte(doc)), Fields: []fieldSpec{{n, s}}, Intended: &x})
+	return doc
+}
+
+var actionLines = []string{`{"index":{}}`, `{"create":{}}`, `{"index":{"_index":"x"}}`, `{"create":{"_id":"1"}}`, `{ "index" : {} }`}
+var badActions = []string{`{"delete":{}}`, `junk`, `{"update":{}}`, `{"Index":{}}`, `index`, `{"a":1}`, `"create`, `{"inde":{},"x":"`}
+
+// one document line for a framing-oriented body
+func (g *gen) framingDoc() string {
+	r := g.r
+	B := g.e.B
+	switch c := r.Intn(20); {
+	case c < 6: // sizes around the buffer
+		n := B + r.Range(-4, 3)
+		if r.Chance(1, 5) {
+			n = r.Range(1, 3)*B + r.Range(-2, 2)
+		}
+		g.feat["size-edge"] = true
+		if n >= B-1 {
+			g.feat["oversize"] = true
+		}
+		return objectOfLen(r, max(n, 2))
+	case c < 11:
+		return objectOfLen(r, r.Range(2, max(2, B-2)))
+	case c < 13:
+		g.feat["nonobject"] = true
+		return rng.Pick(r, []string{"1", "null", "true", "\"s\"", "[1]", "[]", "[{\"k\":1}]", "0.5", " 7 ", "\"{}\""})
+	case c < 15:
+		g.feat["invalid"] = true
+		return breakJSON(r, objectOfLen(r, r.Range(7, max(7, B-2))))
+	case c == 15:
+		g.feat["blank-doc"] = true
+		return ""
+	case c == 16:
+		g.feat["lenient"] = true
+		return rng.Pick(r, []string{`{"a":01}`, `{"a":1e}`, `{"a":-}`, `{"a":.5}`, `{"a":1.}`, `{"a":+1}`, `{"a":"\q"}`, "{\"a\":\"\x01\"}", "{\"a\":\"\t\"}"})
+	}
+	d := genObjectBody(r, 2, false, nil)
+	return d
+}
+
+func (g *gen) body(mode string) ([]byte, string) {
+	r := g.r
+	B := g.e.B
+	var sb bytes.Buffer
+	class := mode
+	npairs := r.Range(1, 6)
+	if mode == "protocol" {
+		npairs = r.Range(1, 8)
+	}
+	eol := func() string {
+		if r.Chance(1, 4) {
+			g.feat["crlf"] = true
+			return "\r\n"
+		}
+		return "\n"
+	}
+	special := ""
+	if mode == "time-far-future" || mode == "estime-long-fraction" {
+		special = mode
+		npairs = r.Range(1, 3)
+	}
+	specialAt := r.Intn(npairs)
+	for i := 0; i < npairs; i++ {
+		for r.Chance(1, 8) { // blank lines before the action line
+			g.feat["blank"] = true
+			sb.WriteString(eol())
+		}
+		act := rng.Pick(r, actionLines)
+		if len(act)+2 > B {
+			act = actionLines[r.Intn(2)]
+		}
+		if mode == "protocol" && r.Chance(1, 5) {
+			g.feat["bad-action"] = true
+			switch r.Intn(4) {
+			case 0:
+				act = objectOfLen(r, B+r.Range(-1, 2)) // too long / just fitting, no create/index
+			case 1:
+				act = `{"index":{"_index":"` + strings.Repeat("i", max(0, B-21+r.Range(-1, 1))) + `"}}`
+			default:
+				act = rng.Pick(r, badActions)
+			}
+		}
+		last := i == npairs-1
+		if mode == "protocol" && last && r.Chance(1, 6) {
+			g.feat["dangling-action"] = true
+			sb.WriteString(act)
+			if r.Bool() {
+				sb.WriteString(eol())
+			}
+			break
+		}
+		sb.WriteString(act)
+		sb.WriteString(eol())
+		var doc string
+		switch {
+		case special != "" && i == specialAt:
+			doc = g.specialTimeDoc(special)
+		case mode == "time" || special != "":
+			if r.Chance(1, 6) {
+				doc = g.framingDoc()
+			} else {
+				doc = g.timeDoc(B < 200 || r.Bool())
+			}
+		case mode == "shapes":
+			switch c := r.Intn(10); {
+			case c < 6:
+				doc = genObjectBody(r, 3, false, nil)
+			case c == 6:
+				doc = genValue(r, 2, false)
+				g.feat["nonobject-or-object"] = true
+			case c == 7:
+				doc = genObjectBody(r, 2, true, nil)
+				g.feat["lenient"] = true
+			case c == 8:
+				doc = breakJSON(r, genObjectBody(r, 2, false, nil))
+				g.feat["invalid"] = true
+			default:
+				doc = g.timeDoc(false)
+			}
+		default:
+			doc = g.framingDoc()
+		}
+		doc = strings.ReplaceAll(doc, "\n", " ")
+		sb.WriteString(doc)
+		if last && r.Chance(1, 3) {
+			g.feat["no-final-newline"] = true
+			if r.Chance(1, 4) {
+				sb.WriteString("\r")
+			}
+		} else {
+			sb.WriteString(eol())
+		}
+	}
+	for r.Chance(1, 8) {
+		sb.WriteString(eol())
+	}
+	return sb.Bytes(), class
+}
+
+// does the reader's skip loop hit io.EOF exactly at the end of an unterminated over-size tail?
+func tailExact(body []byte, B int) (oversize, exact bool) {
+	i := bytes.LastIndexByte(body, '\n')
+	tail := body[i+1:]
+	if len(tail) < B {
+		return false, false
+	}
+	pos := 0
+	for len(tail)-pos >= B {
+		if tail[pos+B-1] == '\r' {
+			pos += B - 1
+		} else {
+			pos += B
+		}
+	}
+	return true, len(tail)-pos == 0
+}
+
+// ---------------------------------------------------------------- worker
+
+type workerSpec struct {
+	MaxDoc int
+	N      int
+	Modes  []string
+	Seed   uint64
+}
+
+func runOne(e *env, rq *request, feat map[string]bool, emit func(record)) {
+	table, lenient, ok := buildTable(rq, emit)
+	if !ok {
+		return
+	}
+	o := e.serve(rq, emit)
+	if o == nil {
+		return
+	}
+	if over, exact := tailExact(rq.body, e.B); over {
+		if exact {
+			rq.Class = "oversize-tail-exact"
+		} else if !strings.HasPrefix(rq.Class, "time-") && !strings.HasPrefix(rq.Class, "estime-") {
+			rq.Class = "oversize-tail"
+		}
+	}
+	if lenient {
+		emit(record{Kind: "count", Key: "json:lenient-body"})
+	}
+	for k := range feat {
+		emit(record{Kind: "count", Key: "feature:" + k})
+	}
+	if o.Status/100 == 2 {
+		emit(record{Kind: "count", Key: fmt.Sprintf("outcome:accepted-%d-docs", min(o.Created, 3))})
+	} else {
+		emit(record{Kind: "count", Key: fmt.Sprintf("outcome:rejected-%d", o.Status)})
+	}
+	nontrivial := len(feat) > 0 && bytes.Count(rq.body, []byte{'\n'}) >= 2
+	emit(record{Kind: "case", Coq: caseTerm(e, rq, o, table), Class: rq.Class, Nontrivial: nontrivial, Req: rq, Obs: o})
+}
+
+func worker(spec workerSpec, out io.Writer) {
+	bw := bufio.NewWriterSize(out, 1<<20)
+	defer bw.Flush()
+	enc := json.NewEncoder(bw)
+	emit := func(rc record) {
+		if err := enc.Encode(rc); err != nil {
+			panic(err)
+		}
+	}
+	e := newEnv(spec.MaxDoc)
+	r := rng.New(spec.Seed)
+	for i := 0; i < spec.N; i++ {
+		mode := spec.Modes[i%len(spec.Modes)]
+		g := &gen{r: r, e: e, feat: map[string]bool{}}
+		g.cfg = r.Intn(len(driftCfgs))
+		if mode == "time-far-future" || mode == "estime-long-fraction" {
+			g.cfg = rng.Pick(r, []int{0, 2})
+		}
+		g.now = baseNow.Add(time.Duration(r.Intn(3600_000)) * time.Millisecond).Add(time.Duration(r.Intn(1_000_000)))
+		body, class := g.body(mode)
+		rq := &request{MaxDoc: spec.MaxDoc, Cfg: g.cfg, NowNs: g.now.UnixNano(), Gzip: r.Chance(1, 5), BodyHex: hex.EncodeToString(body),
+			BodyText: fmt.Sprintf("%q", body), Docs: g.docs, Class: class, body: body}
+		if r.Chance(1, 3) {
+			rq.Chunk = r.Range(1, 40)
+		}
+		runOne(e, rq, g.feat, emit)
+	}
+}
+
+// ---------------------------------------------------------------- main
+
+func plan(tier string, seed uint64) []workerSpec {
+	r := rng.New(seed)
+	fr := []string{"framing", "framing", "protocol"}
+	mix := []string{"framing", "time", "protocol", "shapes", "time"}
+	tm := []string{"time", "time", "shapes", "framing"}
+	sp := []string{"time-far-future", "estime-long-fraction"}
+	k := 1
+	if tier == "thorough" {
+		k = 40
+	}
+	specs := []workerSpec{
+		{7, 500 * k, fr, 0}, {16, 500 * k, fr, 0}, {17, 500 * k, fr, 0}, {23, 400 * k, fr, 0}, {32, 500 * k, fr, 0},
+		{64, 700 * k, mix, 0}, {100, 600 * k, mix, 0}, {200, 800 * k, tm, 0}, {1024, 150 * k, mix, 0},
+		{128, 40, sp, 0},
+	}
+	if tier == "thorough" {
+		specs = append(specs, workerSpec{4096, 300, mix, 0}, workerSpec{33, 500 * k, fr, 0}, workerSpec{257, 200 * k, mix, 0})
+	}
+	for i := range specs {
+		specs[i].Seed = r.U64()
+	}
+	return specs
+}
+
+func main() {
+	seed := flag.Uint64("seed", 1, "")
+	tier := flag.String("tier", "quick", "")
+	out := flag.String("out", "", "")
+	replay := flag.String("replay", "", "")
+	wk := flag.String("worker", "", "internal: JSON worker spec")
+	flag.Parse()
+	if *wk != "" {
+		var spec workerSpec
+		if err := json.Unmarshal([]byte(*wk), &spec); err != nil {
+			panic(err)
+		}
+		if spec.N < 0 { // replay of one request read from stdin
+			var rq request
+			if err := json.NewDecoder(os.Stdin).Decode(&rq); err != nil {
+				panic(err)
+			}
+			rq.body, _ = hex.DecodeString(rq.BodyHex)
+			bw := bufio.NewWriter(os.Stdout)
+			enc := json.NewEncoder(bw)
+			runOne(newEnv(rq.MaxDoc), &rq, map[string]bool{"replay": true}, func(rc record) { enc.Encode(rc) })
+			bw.Flush()
+			return
+		}
+		worker(spec, os.Stdout)
+		return
+	}
+	if *out == "" {
+		fmt.Fprintln(os.Stderr, "need -out")
+		os.Exit(2)
+	}
+	w, err := casefile.New(*out, "C10", "From C10 Require Import Model Spec CaseDefs.", 250)
+	if err != nil {
+		panic(err)
+	}
+	self, err := os.Executable()
+	if err != nil {
+		panic(err)
+	}
+	consume := func(data []byte) {
+		dec := json.NewDecoder(bytes.NewReader(data))
+		for {
+			var rc record
+			if err := dec.Decode(&rc); err == io.EOF {
+				break
+			} else if err != nil {
+				panic(err)
+			}
+			switch rc.Kind {
+			case "case":
+				w.Add(rc.Coq, rc.Class, rc.Nontrivial, map[string]any{"request": rc.Req}, rc.Obs)
+				if *replay != "" {
+					fmt.Printf("replay: class=%s status=%d created=%d calls=%d docs=%q mids=%v\n", rc.Class, rc.Obs.Status, rc.Obs.Created, rc.Obs.Calls, rc.Obs.Docs, rc.Obs.Mids)
+				}
+			case "viol":
+				w.Violate(rc.Fp, rc.What, map[string]any{"request": rc.Req, "observed": rc.Obs})
+			case "count":
+				w.Count(rc.Key)
+			}
+		}
+	}
+	child := func(spec workerSpec, stdin []byte) []byte {
+		js, _ := json.Marshal(spec)
+		cmd := exec.Command(self, "-worker", string(js))
+		cmd.Env = append(os.Environ(), "LOG_LEVEL=fatal")
+		cmd.Stdin = bytes.NewReader(stdin)
+		var so, se bytes.Buffer
+		cmd.Stdout = &so
+		cmd.Stderr = &se
+		if err := cmd.Run(); err != nil {
+			tail := se.String()
+			if len(tail) > 2000 {
+				tail = tail[len(tail)-2000:]
+			}
+			fmt.Fprintf(os.Stderr, "worker %s failed: %v\n%s\n", js, err, tail)
+			os.Exit(3)
+		}
+		return so.Bytes()
+	}
+	if *replay != "" {
+		b, err := os.ReadFile(*replay)
+		if err != nil {
+			panic(err)
+		}
+		var rp struct {
+			Replay struct {
+				Case struct {
+					Input struct {
+						Request json.RawMessage `json:"request"`
+					} `json:"input"`
+				} `json:"case"`
+				Input struct {
+					Request json.RawMessage `json:"request"`
+				} `json:"input"`
+			} `json:"replay"`
+		}
+		if err := json.Unmarshal(b, &rp); err != nil {
+			panic(err)
+		}
+		rq := rp.Replay.Case.Input.Request
+		if rq == nil {
+			rq = rp.Replay.Input.Request
+		}
+		consume(child(workerSpec{N: -1}, rq))
+		if err := w.Close(); err != nil {
+			panic(err)
+		}
+		return
+	}
+	specs := plan(*tier, *seed)
+	outs := make([][]byte, len(specs))
+	sem := make(chan struct{}, 6)
+	var wg sync.WaitGroup
+	for i := range specs {
+		wg.Add(1)
+		go func(i int) {
+			defer wg.Done()
+			sem <- struct{}{}
+			defer func() { <-sem }()
+			outs[i] = child(specs[i], nil)
+		}(i)
+	}
+	wg.Wait()
+	for _, o := range outs {
+		consume(o)
+	}
+	w.Extra["buffer_sizes"] = func() []int {
+		var bs []int
+		for _, s := range specs {
+			bs = append(bs, max(s.MaxDoc, 16))
+		}
+		return bs
+	}()
+	if err := w.Close(); err != nil {
+		panic(err)
 	}
 }
